@@ -17,8 +17,8 @@ import (
 
 func init() {
 	core.Register(&core.Check{
-		ID: "C33",
-		Rule: "cases: histories of up to 40 operations on fresh local protoregistry.Files and Types registries over a universe of 6-14 file descriptors per history: files of 2-3 generated schemas sharing one package prefix (so paths, packages, declaration names and extension numbers overlap) plus derived conflict files (a package named like a declaration, a declaration named like a package component, an enum value named like a message of the enclosing package, same path with other content, an enum named like a message); operations: RegisterFile / RegisterMessage / RegisterEnum / RegisterExtension (incl. repeats) interleaved with lookups; after every operation the registry is compared with an abstract name table: success iff no path, package-vs-declaration, declaration-name or extension-number conflict; a failed registration changes nothing; every declaration of every registered file (nested messages, fields, oneofs, enum values in the enclosing scope, extensions, services, methods) is found by full name with pointer identity; every unregistered name, package name, name prefix and near miss is NotFound; counts and ranges equal the model's sets; distinct = distinct (history, step); non-trivial = step after at least one successful registration",
+		ID:     "C33",
+		Rule:   "cases: histories of up to 40 operations on fresh local protoregistry.Files and Types registries over a universe of 6-14 file descriptors per history: files of 2-3 generated schemas sharing one package prefix (so paths, packages, declaration names and extension numbers overlap) plus derived conflict files (a package named like a declaration, a declaration named like a package component, an enum value named like a message of the enclosing package, same path with other content, an enum named like a message); operations: RegisterFile / RegisterMessage / RegisterEnum / RegisterExtension (incl. repeats) interleaved with lookups; after every operation the registry is compared with an abstract name table: success iff no path, package-vs-declaration, declaration-name or extension-number conflict; a failed registration changes nothing; every declaration of every registered file (nested messages, fields, oneofs, enum values in the enclosing scope, extensions, services, methods) is found by full name with pointer identity; every unregistered name, package name, name prefix and near miss is NotFound; counts and ranges equal the model's sets; distinct = distinct (history, step); non-trivial = step after at least one successful registration",
 		Assume: []string{"the 120-line name-table model in checks/c33.go, transcribing the property statement", "descriptor accessors (C36) to enumerate the declarations of a file"},
 		Batches: func(tier string) []core.Batch {
 			var bs []core.Batch
